@@ -5,6 +5,8 @@ import (
 	"fmt"
 	"sort"
 
+	"github.com/pascaldekloe/mqtt"
+
 	"verifh/refmqtt"
 	"verifh/sim"
 )
@@ -350,7 +352,7 @@ func (h *H) checkLifecycle(msgs []*Msg) {
 		}
 		// (d) only ErrDown / ErrSubmit class errors on the exchange
 		for _, e := range exErrs {
-			if !isErr(e, errDown, errSubmit) {
+			if !isErr(e, errDown, errSubmit) && !(h.closing && isErr(e, mqtt.ErrClosed)) {
 				h.Failf("exchange of %#04x (%q) delivered %v, which is neither ErrDown nor ErrSubmit", m.ID, m.Req.Topic, e)
 			}
 		}
